@@ -658,6 +658,8 @@ const preamble = `(set-logic ALL)
 (declare-fun bslice (Int Int Int) Int)
 (declare-fun bconcat (Int Int) Int)
 (declare-fun bcmp (Int Int) Int)
+(assert (forall ((a Int) (b Int)) (! (and (<= (- 1) (bcmp a b)) (<= (bcmp a b) 1) (= (bcmp a b) (- (bcmp b a))) (= (= (bcmp a b) 0) (= a b))) :pattern ((bcmp a b)))))
+(assert (forall ((a Int) (b Int) (c Int)) (! (=> (and (<= (bcmp a b) 0) (<= (bcmp b c) 0)) (and (<= (bcmp a c) 0) (=> (or (< (bcmp a b) 0) (< (bcmp b c) 0)) (< (bcmp a c) 0)))) :pattern ((bcmp a b) (bcmp b c)))))
 (declare-fun bisnil (Int) Bool)
 (declare-fun bupd (Int Int Int) Int)
 (declare-fun bzero (Int) Int)
